@@ -865,6 +865,18 @@ pub fn worker(args: &[String]) -> i32 {
                 if !s.preexisting.is_empty() {
                     sum.probe("preexisting_outputs");
                 }
+                if s.build.store_tamper != 0 && matches!(expect(&s), Expect::BuildOk) {
+                    sum.probe("author_touched_store_toml_and_build_succeeded");
+                }
+                let repeats = |n: &Vec<String>| {
+                    let d: std::collections::BTreeSet<&String> = n.iter().collect();
+                    d.len() >= 2 && d.len() < n.len()
+                };
+                if let DetectKind::PassPlan(p) = &s.detect {
+                    if !s.build_phase && (repeats(&p.provides) || p.ors.iter().any(|(n, _)| repeats(n))) {
+                        sum.probe("plan_alternative_repeats_a_name_next_to_two_distinct");
+                    }
+                }
                 if x.result.signal.is_some() {
                     sum.probe("phase_killed_by_signal");
                 }
